@@ -16,10 +16,12 @@ for d in sorted(glob.glob(ROOT + '/seeded/*/')):
     det = m.get('detected_by', [])
     inconc = sorted(k for k, r in runs.items() if r.get('exit') == 2)
     missed = sorted(k for k, r in runs.items() if r.get('exit') == 0)
+    if m.get('retired'):
+        rows.append(f"| {m['name']} | {m['breaks_property']} | {line} | *retired*: no longer a violation after fix bd4f506 (was detected by {', '.join(m.get('detected_by_before_retirement', []))}) |"); continue
     verdict = ', '.join(det) if det else ('**not detected** (exit 0: ' + ', '.join(missed) + ')' if missed and not inconc else '**inconclusive** (exit 2: ' + ', '.join(inconc) + ')')
     rows.append(f"| {m['name']} | {m['breaks_property']} | {line} | {verdict} |")
 table = '| change | property | what it is (from the author\'s notes) | quick checks that exit 1 with a replay-confirmed violation |\n|---|---|---|---|\n' + '\n'.join(rows)
 p = ROOT + '/DESIGN.md'; s = open(p).read()
 a = s.index('<!-- SEEDED-TABLE-BEGIN -->') + len('<!-- SEEDED-TABLE-BEGIN -->'); b = s.index('<!-- SEEDED-TABLE-END -->')
 open(p, 'w').write(s[:a] + '\n' + table + '\n' + s[b:])
-print(len(rows), 'rows;', sum(1 for r in rows if 'not detected' in r), 'not detected;', sum(1 for r in rows if 'inconclusive' in r), 'inconclusive')
+print(len(rows), 'rows;', sum(1 for r in rows if 'retired' in r), 'retired;', sum(1 for r in rows if 'not detected' in r), 'not detected;', sum(1 for r in rows if 'inconclusive' in r), 'inconclusive')
